@@ -120,6 +120,44 @@ def run(run, replay=None):
             run.sample({'changes': len(tree['changes']), 'files': nfiles,
                         'main_stats_after': d.meta.get('stats'),
                         'diff_encodings': [f.diff_encoding for c in d.changes for f in c.files]})
+    # every tree of MC_Stats' space, built with the real object model
+    from harness import gen
+    from harness.abstraction import jconc
+    from pydiffx.dom import DiffX
+    mtrees = gen.behaviours('MC_Stats', {}, invariant='Emit', run=run, cfg_extra='CONSTANT Tables <- NoTables\n', timeout=900)
+    if quick:
+        mtrees = rng.sample(mtrees, min(len(mtrees), 600))
+    for t in mtrees:
+        d = DiffX()
+        if t['meta']['items']:
+            d.meta = jconc(t['meta'])
+        for c in t['changes']:
+            ch = d.add_change()
+            if c['meta']['items']:
+                ch.meta = jconc(c['meta'])
+            for f in c['files']:
+                fs = ch.add_file()
+                if f['meta']['items']:
+                    fs.meta = jconc(f['meta'])
+                if f['d']['has']:
+                    fs.diff = bytes(f['d']['raw'])
+                if f['d']['type'] != 'none':
+                    fs.diff_type = f['d']['type']
+                if f['d']['le'] != 'none':
+                    fs.diff_line_endings = f['d']['le']
+        tree = domdriver.stats_tree(d, cat)
+        exc = ''
+        after = after2 = []
+        try:
+            d.generate_stats()
+            after = domdriver.metas(d)
+            d.generate_stats()
+            after2 = domdriver.metas(d)
+        except Exception as e:      # noqa
+            exc = type(e).__name__
+        cases.append({'id': len(cases), 'tree': tree, 'after': after, 'after2': after2, 'exc': exc})
+        run.count(repr(tree), nontrivial=True)
+    run.notes['trees_from_MC_Stats'] = len(mtrees)
     can = []
     pool = [c for c in cases if len(c['after']) >= 3]
     for k, c in enumerate(rng.sample(pool, min(8, len(pool)))):
